@@ -30,7 +30,7 @@ def own_detect(d):
         out[P] = {'exit': '1' if nv else ('2' if 'HARNESS FAULT' in txt else '0'), 'classes': cls}
     return out
 
-for d in sorted(glob.glob(SRC + '/C??/[0-9]')) + sorted(glob.glob('/tmp/mut2/C??/[0-9]')) + sorted(glob.glob('/tmp/mut3/C??/[0-9]')):
+for d in sorted(glob.glob(SRC + '/C??/[0-9]')) + sorted(glob.glob('/tmp/mut2/C??/[0-9]')) + sorted(glob.glob('/tmp/mut3/C??/[0-9]')) + sorted(glob.glob('/tmp/mut4/C??/[0-9]')):
     prop = os.path.basename(os.path.dirname(d)); n = os.path.basename(d)
     mid = '%s-%s' % (prop, n) if d.startswith(SRC + '/') else '%s-r%s-%s' % (prop, d[8], n)
     out = os.path.join(DST, mid)
@@ -55,14 +55,14 @@ for d in sorted(glob.glob(SRC + '/C??/[0-9]')) + sorted(glob.glob('/tmp/mut2/C??
             det[P] = v
     if mid in final and final[mid][1] in ('0', '1', '2'):
         # the sweep over all changes with the checks in their final state
+        # (authoritative: it overrides earlier runs of that check, also when it is a miss)
         P, rc, cls = final[mid]
-        if rc == '1' or P not in det:
-            det[P] = {'exit': rc, 'classes': cls}
+        det[P] = {'exit': rc, 'classes': cls, 'final_sweep': True}
     meta.update({
         'id': mid,
         'breaks_property': prop,
         'produced_by': 'fresh sub-agent given only the text of %s and a scratch worktree of /repo' % prop,
-        'verified_by_me': {'how': 'bin/verify_mutant.sh in a scratch worktree at /repo HEAD: demo on clean tree; git apply; meson compile; meson test; demo on changed tree; git checkout',
+        'verified_by_me': {'how': ('bin/verify_mutant_tsan.sh (library also built with -Db_sanitize=thread; demo run plain and under TSan)' if 'tsan_demo_rc' in ver else 'bin/verify_mutant.sh') + ' in a scratch worktree at /repo HEAD: demo on clean tree; git apply; meson compile; meson test; demo on changed tree; git checkout',
                            'result': ver},
         'checks_run_against_it': {'how': 'bin/mutmatrix.sh: git -C /repo apply patch.diff; bin/check <P> quick for every claimed property; git -C /repo checkout -- .', 'results': det},
         'caught_by': sorted(p for p, v in det.items() if v['exit'] == '1'),
